@@ -1,7 +1,6 @@
 (* Lemmas about the pair-verify model (Model/Verify.v): soundness of a Done run,
    its corollaries in the symbolic algebra, and completeness against the
    specification accessory. *)
-From Coq Require Import String Ascii.
 From Coq Require Import List NArith Arith Bool Lia.
 From AHK Require Import Lib.Res Lib.ByteStr Model.Tlv Model.Sym Model.Verify Proofs.SymFacts.
 Import ListNotations.
